@@ -1477,6 +1477,27 @@ fn step_count_law() -> Option<String> {
     None
 }
 
+/// C06: sol_many agrees with sol at every time of the span and reports an out-of-range error (no panic) when a time lies clearly outside
+fn sol_many_range() -> Option<String> {
+    struct Osc; impl IVP for Osc { fn ode(&self, _t: f64, y: &[f64], d: &mut [f64]) { d[0] = y[1]; d[1] = -y[0]; } }
+    for m in [Method::RK4, Method::RK23, Method::DOPRI5, Method::DOP853, Method::RADAU, Method::BDF] {
+        for &(x0, xe) in &[(0.0f64, 5.0f64), (5.0, -1.0)] {
+            let s = match solve_ivp(&Osc, x0, xe, &[1.0, 0.0], Options::builder().method(m.clone()).dense_output(true).build()) { Ok(s) => s, Err(e) => return Some(format!("{:?}: {:?}", m, e)) };
+            let inside: Vec<f64> = (0..=30).map(|i| x0 + (xe - x0) * i as f64 / 30.0).collect();
+            match s.sol_many(&inside) { Ok(v) => { for (k, t) in inside.iter().enumerate() { if s.sol(*t).ok().as_ref() != Some(&v[k]) { return Some(format!("{:?} on [{}, {}]: sol_many and sol differ at t = {:e}", m, x0, xe, t)); } } }
+                Err(e) => return Some(format!("{:?} on [{}, {}]: sol_many over 31 times of the span fails with {:?}", m, x0, xe, e)) }
+            for out in [x0 - (xe - x0), xe + 0.5 * (xe - x0)] {
+                let mut ts = inside.clone(); ts.insert(7, out);
+                let r = std::panic::catch_unwind(std::panic::AssertUnwindSafe(|| s.sol_many(&ts)));
+                match r { Err(_) => return Some(format!("{:?} on [{}, {}]: sol_many panics when one of the times ({:e}) lies outside the span", m, x0, xe, out)),
+                    Ok(Ok(_)) => return Some(format!("{:?} on [{}, {}]: sol_many succeeds although t = {:e} lies outside the span", m, x0, xe, out)),
+                    Ok(Err(_)) => {} }
+            }
+        }
+    }
+    None
+}
+
 fn main() {
     let which = std::env::args().nth(1).unwrap_or_default();
     let r = match which.as_str() {
@@ -1487,6 +1508,7 @@ fn main() {
         "default_mass" => default_mass(),
         "matrix_dense_model" => matrix_dense_model(),
         "lu_small" => lu_small(),
+        "sol_many_range" => sol_many_range(),
         "step_count_law" => step_count_law(),
         "bdf_rescaling_accuracy" => bdf_rescaling_accuracy(),
         "time_reflection_stiff" => time_reflection_stiff(),
